@@ -1,5 +1,7 @@
 import WhVerif.Util.Proto
 import WhVerif.Model.C03
+import WhVerif.Model.C03Pipe
+import WhVerif.Model.C04Json
 import WhVerif.Spec.C03
 namespace WhVerif.Driver.C03
 open Lean WhVerif.Proto WhVerif.C03
@@ -58,6 +60,120 @@ def tabulate (link : Nat → Nat → Bool) (nodes : List Nat) : Nat → Nat → 
     | some i, some k => (tab[i]?.bind (·[k]?)).getD false
     | _, _ => false
 
+/-! ### pipeline ops (Model/C03Pipe.lean) -/
+
+/-- a read in the format of the trace hook (`_verif_trace.dump_read`) -/
+def parseSelRead (j : Json) : Option SelRead := do
+  let vars ← (← getList? j "variants").mapM (fun v => do
+    match ← natList? v with
+    | [p, a, q] => some (p, a, q)
+    | _ => none)
+  some ⟨← getStr? j "name", ← getNat? j "source_id", ← getNat? j "sample_id", vars⟩
+
+def ofSelRead (r : SelRead) : Json :=
+  Json.mkObj [("name", Json.str r.name), ("source_id", ofNat r.sourceId), ("sample_id", ofNat r.sample),
+    ("variants", ofList (fun (v : Nat × Nat × Nat) => ofNatList [v.1, v.2.1, v.2.2]) r.vars)]
+
+def parseReadsets (j : Json) (k : String) : Option (List (List SelRead)) := do
+  (← getList? j k).mapM (fun rs => do (← asArr? rs).mapM parseSelRead)
+
+def parseMember (j : Json) : Option Member := do
+  match ← asArr? j with
+  | [n, i] => some ⟨← asStr? n, ← asNat? i⟩
+  | _ => none
+
+def parseFamily (j : Json) : Option FamilyIn := do
+  some ⟨← (← getList? j "members").mapM parseMember, ← parseReadsets j "selected", ← getNatList? j "homozygous",
+        ← (← getList? j "superreads").mapM parseSuper⟩
+
+def perrJson : PErr → Json
+  | .fc e => errJson e
+  | .notSorted => Json.mkObj [("err", Json.str "AssertionError")]
+  | .duplicateRead => Json.mkObj [("err", Json.str "RuntimeError")]
+  | .lengthMismatch => Json.mkObj [("err", Json.str "AssertionError")]
+  | .keyError => Json.mkObj [("err", Json.str "KeyError")]
+  | .indexError => Json.mkObj [("err", Json.str "IndexError")]
+
+def pairsJson (l : List (Nat × Nat)) : Json :=
+  ofList (fun (pc : Nat × Nat) => Json.arr #[ofNat pc.1, ofNat pc.2]) (l.foldr insertPair [])
+
+def familyOutJson (distrust genetic : Bool) (f : FamilyIn) (o : FamilyOut) : Json :=
+  let pr := familyParams distrust genetic f o.allReads
+  Json.mkObj [("all_reads", ofList ofSelRead o.allReads), ("accessible", ofNatList o.accessible),
+    ("comps", pairsJson o.comps), ("largest", ofNat (largestSize o.comps)),
+    ("master", match pr.1 with | none => Json.null | some m => ofNatList m),
+    ("het", match pr.2 with
+      | none => Json.null
+      | some h => ofList (fun (e : Nat × List Nat) => Json.arr #[ofNat e.1, ofNatList e.2]) h)]
+
+def parseRunCfg (j : Json) : Option RunCfg := do
+  some ⟨← WhVerif.C04.Json.tag? (← getStr? j "tag"), ← getBool? j "onlySnvs", ← getBool? j "distrust", ← getBool? j "genetic",
+        ← WhVerif.C04.Json.strList? (← getObj? j "header"), ← WhVerif.C04.Json.strList? (← getObj? j "chromosomes")⟩
+
+def parseChrom (j : Json) : Option ChromIn := do
+  some ⟨← getStr? j "name", ← (← getList? j "families").mapM parseFamily,
+        ← (← getList? j "records").mapM WhVerif.C04.Json.record?⟩
+
+def phaseJson (p : Option WhVerif.C09.Phase) : Json :=
+  match p with
+  | none => Json.null
+  | some ph => Json.mkObj [("block", match ph.block with | some b => ofInt b | none => Json.null),
+                           ("alleles", ofList ofOptNat ph.alleles)]
+
+def rowJson (r : ReadListRow) : Json :=
+  Json.arr #[Json.str r.name, ofNat r.sourceId, Json.str r.sample, ofNat r.phaseset, ofNat r.haplotype, ofNat r.nvars,
+    ofNat r.first, ofNat r.last]
+
+def parseSampleComps (j : Json) : Option (List (String × List (Nat × Nat))) := do
+  (← asArr? j).mapM (fun e => do
+    match ← asArr? e with
+    | [n, cs] => some (← asStr? n, ← (← asArr? cs).mapM WhVerif.C04.Json.pairNat?)
+    | _ => none)
+
+def handlePipe (op : String) (j : Json) : Option Json :=
+  if op == "c03.merge" then
+    match parseReadsets j "readsets" with
+    | some rss =>
+      match mergeReadsets rss with
+      | .ok l => some (Json.mkObj [("ok", ofList ofSelRead l)])
+      | .error e => some (perrJson e)
+    | none => some badInput
+  else if op == "c03.family" then
+    match getBool? j "distrust", getBool? j "genetic", (getObj? j "family").bind parseFamily with
+    | some d, some g, some f =>
+      match familyStage d g f with
+      | .ok o =>
+        some (familyOutJson d g f o)
+      | .error e => some (perrJson e)
+    | _, _, _ => some badInput
+  else if op == "c03.readlist" then
+    match (getList? j "members").bind (·.mapM parseMember), (getObj? j "sample_comps").bind parseSampleComps,
+          (getList? j "reads").bind (·.mapM parseSelRead), getNatList? j "bipartition" with
+    | some ms, some sc, some rs, some bp =>
+      match readList ms sc rs bp with
+      | .ok rows => some (Json.mkObj [("ok", ofList rowJson rows)])
+      | .error e => some (perrJson e)
+    | _, _, _, _ => some badInput
+  else if op == "c03.largest" then
+    match (getList? j "comps").bind (·.mapM WhVerif.C04.Json.pairNat?) with
+    | some cs => some (Json.mkObj [("size", ofNat (largestSize cs))])
+    | none => some badInput
+  else if op == "c03.pipeline" then
+    -- the whole run: {cfg, chroms} -> per chromosome, per record, per header sample the decoded phase statement
+    match (getObj? j "cfg").bind parseRunCfg, (getList? j "chroms").bind (·.mapM parseChrom) with
+    | some rc, some cs =>
+      match phaseFile rc cs with
+      | .error e => some (perrJson e)
+      | .ok outs =>
+        some (Json.mkObj [("chroms", ofList (fun (os : List WhVerif.C04.Out) =>
+          ofList (fun (o : WhVerif.C04.Out) =>
+            Json.mkObj [("pos", ofNat o.record.pos),
+                        ("format", ofList Json.str o.record.format),
+                        ("phases", ofList (fun (nc : String × WhVerif.C04.Call) => phaseJson (decodeCall o.record.format nc.2))
+                          o.record.calls)]) os) outs)])
+    | _, _ => some badInput
+  else none
+
 def handle (op : String) (j : Json) : Option Json :=
   if op == "c03.find_components" then
     match getNatList? j "phased", parseReads j "reads" with
@@ -93,5 +209,5 @@ def handle (op : String) (j : Json) : Option Json :=
       some (Json.mkObj [("leftmost", ofList (fun (pc : Nat × Nat) => Json.arr #[ofNat pc.1, ofNat pc.2]) (left.foldr insertPair [])),
                         ("connected", Json.arr conn.toArray)])
     | _, _ => some badInput
-  else none
+  else handlePipe op j
 end WhVerif.Driver.C03
